@@ -1195,16 +1195,18 @@ func runStress(k kase) (res result) {
 	for _, d := range done {
 		total += d
 	}
-	// commit messages to the slower replicas are sent by goroutines that may still be running
-	waitPoll(3*time.Second, func() bool {
+	// All proposers are done. Commit/Abort messages to the slower replicas are sent by goroutines that may still
+	// be running; once they are through, every replica must be at the final version and hold no pre-commit.
+	settled := waitPoll(5*time.Second, func() bool {
 		for _, nd := range h.nodes {
-			if resources.GetVersion(nd.rcvr) < total {
+			st := resources.VerifTwoPCSnapshot(nd.rcvr)
+			if st.Version < total || st.TwoPCState != "initial" {
 				return false
 			}
 		}
 		return true
 	})
-	res.Final = map[string]interface{}{"finished": finished, "done": done, "snaps": h.snaps()}
+	res.Final = map[string]interface{}{"finished": finished, "settled": settled, "total": total, "done": done, "snaps": h.snaps()}
 	for i := 0; i < n; i++ {
 		func() {
 			defer func() { recover() }()
